@@ -4,7 +4,24 @@ COQ_TARGETS = ["Props/Properties_C20.vo", "Extract/ExtractText.vo"]
 PROPS_FILES = ["Props/Properties_C20.v"]
 RUNS = [
     dict(name="quote", harness="c20", driver="text", model_ml="text_model", harness_args=["-part", "quote"]),
+    dict(name="render", harness="c20", driver="text", model_ml="text_model", harness_args=["-part", "render"]),
+    dict(name="history", harness="c20", driver="text", model_ml="text_model", harness_args=["-part", "history"]),
 ]
+
+
+def generate(res):
+    """The harness module cannot import /repo's internal/aircraftlib: the generated file is copied
+    (write-if-changed) next to the harness before it is built, so that the accessors used are the
+    repository's current ones."""
+    import os, sys
+    sys.path.insert(0, os.path.join(os.path.dirname(os.path.abspath(__file__)), "..", "lib"))
+    import vcheck
+    src = open(os.path.join(vcheck.REPO, "internal", "aircraftlib", "aircraft.capnp.go")).read()
+    dst = os.path.join(vcheck.VERIF, "harness", "cmd", "c20", "aircraftlib", "aircraft.capnp.go")
+    changed = vcheck.write_if_changed(dst, src)
+    return ["harness/cmd/c20/aircraftlib/aircraft.capnp.go copied from /repo/internal/aircraftlib (%s)"
+            % ("updated" if changed else "unchanged")]
+
 EXPLANATION = ("Theorems over all byte strings / schemas / values / encode counts about Gallina models of "
                "internal/strquote (Append), encoding/text (marshalStruct & co.) and the nodemap cache, against an "
                "independent reader of the Cap'n Proto text format (TextSpec); the models are tied to the code by "
